@@ -204,7 +204,9 @@ pub fn render(s: &YSpec, l: &Layout) -> Option<Rendered> {
     }
     if s.epp {
         let q = if l.quote == Quote::Double { '\'' } else { '"' };
+        // the delimiter must be escaped; the other kind of quote may be (reversed layouts do)
         let v = if q == '"' { EPP_VALUE.replace('"', "\\\"") } else { EPP_VALUE.replace('\'', "\\'") };
+        let v = if l.reversed { if q == '"' { v.replace('\'', "\\'") } else { v.replace('"', "\\\"") } } else { v };
         decls.push(format!("%epp{}{}{}{}{}{}", hgap, tok(0), hgap, q, v, q));
     }
     if !g.avoid_insert.is_empty() {
